@@ -551,6 +551,19 @@ impl<T: Valid> Valid for Vec<T> {
     }
 }
 
+/// The number of elements to reserve before reading a sequence whose length
+/// prefix is `len`. The prefix is untrusted input, so it must not be turned
+/// into an allocation directly: at most 1 MiB is reserved up front and the
+/// collection grows as elements are actually read.
+#[inline]
+fn cautious_capacity<T>(len: usize) -> usize {
+    const MAX_PREALLOC_BYTES: usize = 1 << 20;
+    ark_std::cmp::min(
+        len,
+        MAX_PREALLOC_BYTES / ark_std::cmp::max(1, core::mem::size_of::<T>()),
+    )
+}
+
 impl<T: CanonicalDeserialize> CanonicalDeserialize for Vec<T> {
     #[inline]
     fn deserialize_with_mode<R: Read>(
@@ -561,7 +574,7 @@ impl<T: CanonicalDeserialize> CanonicalDeserialize for Vec<T> {
         let len = u64::deserialize_with_mode(&mut reader, compress, validate)?
             .try_into()
             .map_err(|_| SerializationError::NotEnoughSpace)?;
-        let mut values = Self::with_capacity(len);
+        let mut values = Self::with_capacity(cautious_capacity::<T>(len));
         for _ in 0..len {
             values.push(T::deserialize_with_mode(
                 &mut reader,
@@ -658,7 +671,7 @@ impl<T: CanonicalDeserialize> CanonicalDeserialize for VecDeque<T> {
         let len = u64::deserialize_with_mode(&mut reader, compress, validate)?
             .try_into()
             .map_err(|_| SerializationError::NotEnoughSpace)?;
-        let mut values = Self::with_capacity(len);
+        let mut values = Self::with_capacity(cautious_capacity::<T>(len));
         for _ in 0..len {
             values.push_back(T::deserialize_with_mode(
                 &mut reader,
